@@ -203,15 +203,16 @@ func (f FieldValues) Set(field *Field, value *Value) {
 }
 
 // returns the datetime as it will be when read back from its marshalled form (which has microsecond precision and a zone
-// offset rather than a zone), so that a value behaves the same before and after the contact has been persisted
+// offset rather than a zone), so that a value behaves the same before and after the contact has been persisted. A value
+// which can't be read back (e.g. one in year 10000) can't be stored and so isn't kept as a datetime: nil is returned.
 func asStored(dt *types.XDateTime) *types.XDateTime {
 	marshaled, err := jsonx.Marshal(dt)
 	if err != nil {
-		return dt
+		return nil
 	}
 	stored := &types.XDateTime{}
 	if err := jsonx.Unmarshal(marshaled, stored); err != nil {
-		return dt
+		return nil
 	}
 	return stored
 }
